@@ -144,7 +144,9 @@ def c01Stream (args : List String) (impl : String) : Answer :=
     | none => ("bad-op", "n/a")
     | some bs =>
       let model := "ns=" ++ ",".intercalate (streamNs (bs.length + 1) bs [])
-      (model, if impl.startsWith "panic" then "false:panic" else "true")
+      (model, if impl.startsWith "panic" then "false:panic"
+              else if impl.endsWith "reused-receiver-differs" then "false:parse-into-a-reused-receiver-differs-from-a-fresh-parse"
+              else "true")
   | _ => ("bad-op", "n/a")
 
 /-- `txid <txdesc>`: implementation `<hex string> <hex of TxIDBytes>`;
